@@ -131,6 +131,9 @@ MACRONAMES = ["m", "f1", "helper", "añadir"]
 REGEXES = ["a", "^a", "b$", "a.c", "[a-c]+", "(a)(b)?", "x|y", "[0-9]+", "(é)", "a*", "\\\\d+", "(", "[", "h(el+)o", "^$",
            # groups that exist but may not take part in a match (optional, alternation): group numbers must not shift
            "(a)?(b)", "(x)|(y)|(a)", "(h)?(e)?(l+)", "([0-9]+)?-?([a-z]+)", "(a)|(b)"]
+REGEX_SUBJECTS = [("(a)?(b)", ["b", "ab", "xb", "a"]), ("(x)|(y)|(a)", ["a", "y", "x", "zya"]), ("(h)?(e)?(l+)", ["hello", "ello", "llo", "hl"]),
+                  ("([0-9]+)?-?([a-z]+)", ["12-ab", "ab", "-ab", "7x"]), ("(a)|(b)", ["b", "a", "cb"]), ("(a)(b)?", ["a", "ab", "ba"]),
+                  ("h(el+)o", ["hello", "helo", "ho"]), ("((a)|(b))+(c)?", ["ab", "bc", "abc", "c"]), ("(?:a)(b)(?P<n>c)?", ["ab", "abc"]), ("(\u00e9)?(.)", ["\u00e9x", "x"])]
 FORMATS = ["%Y-%m-%d", "%H:%M:%S", "%Y-%m-%dT%H:%M:%S", "%F %T", "%j", "%Y", "%d/%m/%Y %H:%M", "%%", "%Q", "%", "%Y-%m-%d %z",
            "%F %T%.3f", "%Y-%m-%d %H:%M:%S%.3f", "%T%.6f", "%F %T%.9f"]
 ENVNAMES = ["JAWK_VF_A", "JAWK_VF_E", "JAWK_VF_MISSING", "JAWK_VF_U", "JAWK_VF_L1"]
@@ -328,6 +331,8 @@ class Gen:
             add("base63_decode", lambda g, sc, d: C("base63_decode", ("lit", r.choice(("aGVsbG8=", "w6k=", "", "!!!", "aGVsbG8", "/w==", "YQ==")))))
             add("format_time", lambda g, sc, d: C("format_time", g("epoch"), self.lit_or_field("fmt", "fmt", sc)))
             add("extract_regex_group", lambda g, sc, d: C("extract_regex_group", g("str"), self.lit_or_field("regex", "pat", sc), g("int")))
+            # subjects that do match, with groups that take part and groups that do not, every group number asked for
+            add("extract_regex_group", lambda g, sc, d: (lambda t: C("extract_regex_group", ("lit", r.choice(t[1])), ("lit", t[0]), ("lit", r.choice((0, 1, 2, 3, 4)))))(r.choice(REGEX_SUBJECTS)))
         if kind in ("nas", "any", "str"):
             add('"+"', lambda g, sc, d: C(r.choice(('"+"', '"*"')), *[g("nas") for _ in range(r.choice((2, 3)))]))
             add('"-"', lambda g, sc, d: C('"-"', *[g("nas") for _ in range(r.choice((1, 2)))]))
